@@ -22,6 +22,7 @@ from __future__ import annotations
 
 import copy
 import pickle
+import sys
 import warnings
 
 import numpy as np
@@ -961,10 +962,12 @@ def run(ctx):
     ]
     core.prove(ctx, PID, uses=[])
     rng = gen.rng_for(ctx.seed, PID)
-    leg_a_cache(ctx, rng, 150 if ctx.quick else 2500)
-    leg_a_alias(ctx, rng, 4 if ctx.quick else 40)
-    leg_c_unchanged(ctx, rng, 60 if ctx.quick else 900)
-    leg_c_cached(ctx, rng, 120 if ctx.quick else 2000)
+    # source drift (a new / removed in-place statement in the anchored files) is not a verdict: it deepens the search
+    boost = 3 if inventory_drift(ctx) else 1
+    leg_a_cache(ctx, rng, 150 if ctx.quick else 6000)
+    leg_a_alias(ctx, rng, (4 if ctx.quick else 100) * boost)
+    leg_c_unchanged(ctx, rng, (60 if ctx.quick else 3000) * boost)
+    leg_c_cached(ctx, rng, (120 if ctx.quick else 6000) * boost)
     ctx.cov["rule"] = (
         "A:cache = one random call sequence (1..40 calls drawn from a pool of <=6 permutations, <=6 reshape targets, tocsr, tocsc, "
         "raw argument forms varied) on one cache-enabled COO array (root or a cache-enabled result), compared with the model after every call; "
@@ -977,7 +980,94 @@ def run(ctx):
 
 
 def replay(ctx, path):
+    """a failure is a deterministic function of (seed, tier): re-run the check under the recorded ones"""
     import json
     rep = json.loads(open(path).read())
-    print(json.dumps(rep.get("failure", rep), indent=1, default=str)[:4000])
-    return 0
+    print(json.dumps(rep.get("failure") or rep.get("correspondence_failures") or rep, indent=1, default=str)[:3000], file=sys.stderr)
+    ctx.seed, ctx.tier = int(rep.get("seed", ctx.seed)), rep.get("tier", ctx.tier)
+    ctx.quick = ctx.tier == "quick"
+    run(ctx)
+    return core.finish(ctx)
+
+
+# ------------------------------------------------------------------------------------------------
+# source inventory of in-place sites (drift detection only: never a verdict)
+# ------------------------------------------------------------------------------------------------
+
+INPLACE_FILES = ["sparse/numba_backend/_coo/core.py", "sparse/numba_backend/_coo/common.py", "sparse/numba_backend/_coo/indexing.py",
+                 "sparse/numba_backend/_compressed/compressed.py", "sparse/numba_backend/_compressed/indexing.py",
+                 "sparse/numba_backend/_compressed/convert.py", "sparse/numba_backend/_sparse_array.py", "sparse/numba_backend/_umath.py",
+                 "sparse/numba_backend/_common.py", "sparse/numba_backend/_utils.py"]
+MUTATORS = {"sort", "fill", "resize", "put", "partition", "setflags", "itemset", "byteswap", "setfield"}
+
+
+def inplace_sites():
+    """{file::function: {kind: count}} — statements that write into an existing array-like object: `x[...] = v`, `x[...] op= v`,
+    `x op= v`, `f(..., out=y)`, `x.sort()/fill()/…`, `self.attr = …` outside __init__/__setstate__ (attribute re-binding)"""
+    import ast
+
+    res = {}
+    for rel in INPLACE_FILES:
+        p = core.REPO / rel
+        if not p.exists():
+            continue
+        tree = ast.parse(p.read_text())
+
+        def own_nodes(fn):
+            """nodes of a function body, not descending into nested functions / classes / lambdas"""
+            stack = list(ast.iter_child_nodes(fn))
+            while stack:
+                n = stack.pop()
+                if isinstance(n, ast.FunctionDef | ast.AsyncFunctionDef | ast.ClassDef | ast.Lambda):
+                    continue
+                yield n
+                stack.extend(ast.iter_child_nodes(n))
+
+        def visit(node, qual):
+            for ch in ast.iter_child_nodes(node):
+                if isinstance(ch, ast.ClassDef):
+                    visit(ch, f"{qual}.{ch.name}" if qual else ch.name)
+                elif isinstance(ch, ast.FunctionDef | ast.AsyncFunctionDef):
+                    q = f"{qual}.{ch.name}" if qual else ch.name
+                    kinds = []
+                    for n in own_nodes(ch):
+                        if isinstance(n, ast.Assign):
+                            for t in n.targets:
+                                for e in (t.elts if isinstance(t, ast.Tuple) else [t]):
+                                    if isinstance(e, ast.Subscript):
+                                        kinds.append("subscript-assign")
+                                    elif isinstance(e, ast.Attribute) and not (isinstance(e.value, ast.Name) and e.value.id == "self"):
+                                        kinds.append("foreign-attr-assign")
+                        elif isinstance(n, ast.AugAssign):
+                            kinds.append("aug-subscript" if isinstance(n.target, ast.Subscript)
+                                         else "aug-attr" if isinstance(n.target, ast.Attribute) else "aug-name")
+                        elif isinstance(n, ast.Call):
+                            if any(k.arg == "out" and not (isinstance(k.value, ast.Constant) and k.value.value is None) for k in n.keywords):
+                                kinds.append("out-kw")
+                            if isinstance(n.func, ast.Attribute) and n.func.attr in MUTATORS \
+                                    and not (isinstance(n.func.value, ast.Name) and n.func.value.id in ("np", "numpy")):
+                                kinds.append("mutating-method")
+                    for k in kinds:
+                        d = res.setdefault(f"{rel.split('numba_backend/')[1]}::{q}", {})
+                        d[k] = d.get(k, 0) + 1
+                    visit(ch, q)
+                elif isinstance(ch, ast.If | ast.Try | ast.With | ast.For | ast.While):
+                    visit(ch, qual)
+
+        visit(tree, "")
+    return res
+
+
+def inventory_drift(ctx):
+    import json
+    exp_path = core.ROOT / "harness" / "c11_inplace_sites.json"
+    try:
+        now = inplace_sites()
+    except Exception as e:  # noqa: BLE001
+        ctx.notes["inplace_inventory"] = {"error": str(e)}
+        return True
+    exp = json.loads(exp_path.read_text()) if exp_path.exists() else {}
+    drift = {k: {"expected": exp.get(k), "found": now.get(k)} for k in sorted(set(exp) | set(now)) if exp.get(k) != now.get(k)}
+    ctx.notes["inplace_inventory"] = {"functions_with_sites": len(now), "sites": sum(sum(v.values()) for v in now.values()),
+                                      "source_drift": drift}
+    return bool(drift)
